@@ -192,3 +192,20 @@ def run(ctx: Ctx):
            "the writer is closed on leaving the block, which writes the atom count and the box line", node=scope)
     # ------------------------------------------------------------------ R5.6
     exmap.r2_3(ctx, rule="R5.6")
+    # residue numbers of each written molecule are those of its input molecule (C04/R4.5)
+    em = exmap.EM(ctx)
+    fcall = em.call
+    cfgc = CFG(fcall.node)
+    domc = cfgc.dominators()
+    argp = [p_ for p_ in fcall.params if p_ != "self"][0]
+    rs = [s_ for s_ in walk_no_nested(fcall.node) if isinstance(s_, ast.Assign) and isinstance(s_.targets[0], ast.Attribute)
+          and s_.targets[0].attr == "resids"]
+    frets = [n_ for n_ in walk_no_nested(fcall.node) if isinstance(n_, ast.Return)]
+    okr = bool(rs) and bool(frets) and norm(rs[0].value) == "%s.resids" % argp and all(
+        cfgc.node_of(rs[0]).id in domc[cfgc.node_of(r_).id] and norm(r_.value) == norm(rs[0].targets[0].value) for r_ in frets)
+    ctx.ob("R5.6", fcall, rs[0] if rs else "residue numbers", okr,
+           "every mapped molecule carries exactly the residue numbers of its input molecule (copied, not renumbered)",
+           node=rs[0] if rs else fcall.node)
+    # the box line is written completely (C13/R13.4)
+    from . import c13
+    c13.r13_4(ctx, rule="R5.5")
